@@ -93,6 +93,19 @@ func scopesC08(thorough bool) []Scope {
 	// ids far apart on a six-level grid: a 2x2 window of id-2 pixels (1/4 of an id-0 pixel wide, 8x8 pixels of id 5)
 	scs = append(scs, Scope{Name: "L-multi6-spaced", GS: synthGS(5, 2, [2]int64{240, 240}), Spec: lat.Spec{Points: scale(lat.Window(2, 2, 2), 8), MaxK: k(3, 4), Valid: true},
 		IDSets: [][]int{{0}, {1}, {2}, {3}, {4}, {5}, {0, 5}, {1, 4}, {0, 2, 5}, {0, 3}, {2, 5}, {5, 1}, {1, 3, 5}, {0, 1, 2, 3, 4, 5}}, Cfgs: keepCfgs})
+	// a hair off a border: vertices 1/512 of a deepest pixel below / on / above a pixel border of the COARSEST id (ids 0..3:
+	// 1/4096 of an id-0 pixel) and half an id-0 pixel away: whatever tolerance decides the pixel of a vertex must not be
+	// derived from the deepest requested id
+	{
+		const u, b = int64(1), int64(4096) // lattice unit = 1/512 deepest pixel; an id-0 pixel = 8 deepest pixels = 4096 units
+		var pts []ref.P
+		for _, y := range []int64{b - u, b, b + u, b - 2048, b + 2048} {
+			for _, x := range []int64{b - u, b, b + u, b - 2048, b + 2048} {
+				pts = append(pts, ref.P{x, y})
+			}
+		}
+		scs = append(scs, Scope{Name: "L-hair-multi4", GS: synthGS(3, 512, [2]int64{56, 56}), Spec: lat.Spec{Points: pts, MaxK: k(3, 4), Valid: true}, IDSets: all4, Cfgs: keepCfgs})
+	}
 	// the id LIST as written: descending, largest id not last, duplicates (the result is keyed by id whatever the order)
 	scs = append(scs, Scope{Name: "L-multi-id-lists", GS: synthGS(2, 2, [2]int64{28, 28}), Spec: lat.Spec{Points: scale(lat.Window(2, 2, 2), 4), MaxK: k(4, 5), Valid: true},
 		IDSets: [][]int{{0}, {1}, {2}, {1, 0}, {2, 0}, {2, 1}, {2, 1, 0}, {1, 2, 0}, {0, 2, 1}, {2, 0, 1}, {0, 0, 1}, {1, 1, 0}, {2, 2}, {0, 2, 2}, {2, 2, 0, 0}}, Cfgs: keepCfgs})
